@@ -68,6 +68,10 @@ Definition finished (p : pool) : bool :=
 (* the sequence of report calls of a finished run *)
 Definition run_trace (p : pool) : list event := trace p ++ [EEnd].
 
+(* a fair schedule that finishes a run of n workers: used to run the pool on concrete cases *)
+Fixpoint round_robin_sched (n rounds : nat) : list nat :=
+  match rounds with O => [] | S r => seq 0 n ++ round_robin_sched n r end.
+
 (* one worker, no interleaving: the reference *)
 Definition asset_events (k : nat) : list event :=
   match window k with
